@@ -420,7 +420,7 @@ def expr_programs(seed, n, cfg, start_id=1, use_ds=True, diff_labels=True):
 
 MENTION_KINDS = ["assign_target", "rhs", "sigil", "call_arg", "ds_call", "ds_assign", "jump_cond", "predec",
                  "times_count", "times_clobber", "alias", "ternary", "while_cond", "compound_assign", "label_cond_time",
-                 "nested", "nested", "nested_ds", "nested_dead"]
+                 "nested", "nested", "nested_ds", "nested_dead", "const_dead"]
 
 
 def nest_mention(rng, leaf, is_float, depth, force_ds=False):
@@ -495,6 +495,17 @@ def mention_stmt(rng, kind, reg, is_float, labels):
         inner = {"k": "ds", "cases": [lit(), lit(), lit(), binop("+", v, lit())]}
         e = {"k": "ds", "cases": [inner, lit(), lit(), lit()]}
         return [call(102 if is_float else 101, [e])]
+    if kind == "const_dead":
+        # the register is mentioned only in the branch of a ternary whose condition is a constant expression
+        # (const_simplify drops that branch before lowering)
+        lit = (lambda: flit(rng.choice([1, 3, 5]), 1)) if is_float else (lambda: ilit(rng.choice([1, 2, 3])))
+        dead = rng.choice([v, binop("+", v, lit()), unop("-", v)])
+        c = rng.choice([ilit(0), ilit(2), binop("<", ilit(1), ilit(2)), binop("==", ilit(3), ilit(1))])
+        truthy = c.get("v", None) == 2 or (c.get("k") == "bin" and c["op"] == "<")
+        e = {"k": "tern", "c": c, "a": lit(), "b": dead} if truthy else {"k": "tern", "c": c, "a": dead, "b": lit()}
+        if rng.random() < 0.5:
+            return [call(102 if is_float else 101, [e])]
+        return [{"k": "assign", "var": var(1021) if is_float else other, "op": "=", "value": e}]
     if kind in ("nested", "nested_ds"):
         e = nest_mention(rng, v, is_float, rng.choice([2, 2, 3]), force_ds=(kind == "nested_ds"))
         if rng.random() < 0.5:
